@@ -73,6 +73,10 @@ def check(ctx, form, inputs, bs, rows, err, kinds):
         ctx.fail("rows-lost-beyond-the-known-mechanisms", case, {"expected_survivors": exp_rows, "returned": [r["input_reaction"] for r in rows]})
 
 
+def pub_rows(rows):
+    return [{"input_reaction": r.get("input_reaction"), "reaction": r.get("reaction"), "solved": bool(r.get("solved")), "solved_by": r.get("solved_by")} for r in rows]
+
+
 def run(ctx):
     from rdkit import RDLogger
     RDLogger.DisableLog("rdApp.*")
@@ -135,6 +139,21 @@ def run(ctx):
             if kinds or (len(inputs) >= 2 and "CC>>CCCO" in inputs):
                 ctx.nontrivial.add((json.dumps(inputs), bs, "list"))
             check(ctx, "list-of-str" if stringy else "list-of-dict", inputs, bs, rows, err, kinds)
+    # the cache switched on: a later list must get ITS rows even when an earlier list of the same length looks alike (same reactions in
+    # another order; reaction strings that concatenate to the same text)
+    cdir = tempfile.mkdtemp(prefix="synrbl_c05c_")
+    try:
+        KA, KB = ["CC(=O)OCC>>CC(=O)O", "CCO>>CC=O"], ["CC(=O)OCC>>CC(=O)OC", "CO>>CC=O"]
+        for lst, bs in ((KA, None), (KB, None), (KA[::-1], None), (KA + ["C>>C"], 2), (KB + ["C>>C"], 2)):
+            try:
+                rows = pub_rows(Balancer(n_jobs=1, batch_size=bs, cache=True, cache_dir=cdir).rebalance(list(lst), output_dict=True)); err = None
+            except Exception as e:
+                rows, err = [], "%s: %s" % (type(e).__name__, e)
+            ctx.evaluations += 1
+            ctx.count("S", "cached_runs")
+            check(ctx, "list-of-str, cache on (one directory, earlier lists look alike)", lst, bs, rows, err, [])
+    finally:
+        shutil.rmtree(cdir, ignore_errors=True)
     # other source forms + CLI on a subset
     tmp = tempfile.mkdtemp(prefix="synrbl_c05_")
     try:
